@@ -5,6 +5,7 @@ pub mod c05;
 pub mod c07;
 pub mod c08;
 pub mod c12;
+pub mod c13;
 pub mod c20;
 
 use crate::report::Report;
